@@ -21,7 +21,8 @@ Record dkc_case := {
   dkc_vers : list ((nat * nat) * bool);        (* ((i, o), VerifySignature of party o's signature under gmpk[id i]), i < dkc_nsk *)
   dkc_recs : list ((list nat * list Z) * option Z); (* parties whose signature shares are recovered from, Lagrange
                                                   coefficient hints, dlog of the result *)
-  dkc_splits : list (Z * list Z)               (* (primary key, split keys) of GenerateSplitKeys *)
+  dkc_splits : list (Z * list Z)               (* (primary key, scalars read from the private key bytes of the
+                                                  split keys) of GenerateSplitKeys *)
 }.
 
 Definition dkc_check (c : dkc_case) : bool :=
@@ -39,4 +40,5 @@ Definition dkc_check (c : dkc_case) : bool :=
   && forallb (fun v => dz_recover_ok p (map (fun i => (id i, nth i (dkc_sks c) 0)) (fst (fst v)))
                                    (snd (fst v)) (snd v))
              (dkc_recs c)
-  && forallb (fun v => Z.eqb (dz_sum p (snd v)) (fst v)) (dkc_splits c).
+  && forallb (fun v => Z.eqb (dz_sum p (snd v)) (fst v)
+                       && list_eqb Z.eqb (dz_split p (fst v) (removelast (snd v))) (snd v)) (dkc_splits c).
